@@ -203,3 +203,91 @@ Proof.
     replace e with (match rev dd with [] => Some (rev g) | _ => None end) by (symmetry; exact K0) end.
   destruct (rev dd); reflexivity.
 Qed.
+
+(** * path.Clean is idempotent (as far as the reduction below can tell) *)
+
+(** what a cleaned path looks like: empty, ".", or the join of ".." elements followed by good names *)
+Lemma clean_path_shape s :
+  clean_path s = [] \/ clean_path s = [DOT] \/
+  exists dd g, forallb is_dotdot dd = true /\ forallb good_name g = true /\ dd ++ g <> [] /\
+               clean_path s = join (dd ++ g).
+Proof.
+  unfold clean_path, go_clean. destruct s as [|c s']; [right; left; reflexivity|].
+  set (rooted := N.eqb c SLASH). rewrite clean_comps_stack.
+  assert (HA : cs_shape rooted (clean_stack rooted [] (split_slash (c :: s')))).
+  { apply clean_stack_shape; [apply split_slash_no_slash|]. exists [], []. repeat split; auto. }
+  destruct HA as (g & dd & EA & Hg & Hdd & Hroot). rewrite EA, rev_app_distr.
+  assert (Hg' : forallb good_name (rev g) = true).
+  { rewrite forallb_forall in *. intros x Hx. apply Hg. apply in_rev. exact Hx. }
+  assert (Hdd' : forallb is_dotdot (rev dd) = true).
+  { rewrite forallb_forall in *. intros x Hx. apply Hdd. apply in_rev. exact Hx. }
+  destruct rooted eqn:Er.
+  - rewrite (Hroot eq_refl). simpl rev. simpl app. change (N.eqb SLASH SLASH) with true. cbn iota.
+    destruct (rev g) as [|a l] eqn:Eg; [left; reflexivity|].
+    right. right. exists [], (a :: l). repeat split; auto. discriminate.
+  - destruct (rev dd ++ rev g) as [|a l] eqn:El; [right; left; reflexivity|].
+    right. right. exists (rev dd), (rev g). split; [exact Hdd'|]. split; [exact Hg'|].
+    split; [intro X; assert (Y : rev dd ++ rev g = []) by exact X; rewrite El in Y; discriminate|]. rewrite <- El.
+    destruct (join (rev dd ++ rev g)) as [|c0 r0] eqn:Ej; [symmetry; exact Ej|].
+    assert (N.eqb c0 SLASH = false) as ->; [|symmetry; exact Ej].
+    destruct (rev dd) as [|d rd].
+    + simpl in Ej. eapply join_first_not_slash; [exact Hg'|exact Ej].
+    + simpl in Hdd'. apply andb_true_iff in Hdd' as [Hd _]. apply bytes_eqb_spec in Hd. subst d.
+      simpl in Ej. destruct (rd ++ rev g); inversion Ej; subst; reflexivity.
+Qed.
+
+Lemma clean_stack_dotdots dd : forall acc : list name, forallb is_dotdot dd = true -> forallb is_dotdot acc = true ->
+  clean_stack false acc dd = rev dd ++ acc.
+Proof.
+  induction dd as [|d dd IH]; intros acc Hd Ha; simpl; [reflexivity|].
+  simpl in Hd. apply andb_true_iff in Hd as [Hd Hdd].
+  assert (is_empty d = false /\ is_dot d = false) as [-> ->].
+  { apply bytes_eqb_spec in Hd. subst. split; reflexivity. }
+  simpl. rewrite Hd. destruct acc as [|top acc'].
+  - rewrite IH; [|exact Hdd|simpl; rewrite Hd; reflexivity]. rewrite <- app_assoc. reflexivity.
+  - simpl in Ha. apply andb_true_iff in Ha as [Ht Ha']. rewrite Ht.
+    rewrite IH; [|exact Hdd|simpl; rewrite Hd, Ht, Ha'; reflexivity]. rewrite <- app_assoc. reflexivity.
+Qed.
+
+Lemma clean_path_join_fixed dd g :
+  forallb is_dotdot dd = true -> forallb good_name g = true -> dd ++ g <> [] ->
+  clean_path (join (dd ++ g)) = join (dd ++ g).
+Proof.
+  intros Hdd Hg Hne.
+  assert (Hns : forallb no_slash (dd ++ g) = true).
+  { rewrite forallb_app. apply andb_true_iff. split; apply forallb_forall; intros x Hx.
+    - apply dotdot_no_slash. rewrite forallb_forall in Hdd. auto.
+    - apply good_no_slash. rewrite forallb_forall in Hg. auto. }
+  assert (Hfirst : forall c0 r0, join (dd ++ g) = c0 :: r0 -> N.eqb c0 SLASH = false).
+  { intros c0 r0 Ej. destruct dd as [|d rd].
+    - simpl in Ej. eapply join_first_not_slash; [exact Hg|exact Ej].
+    - simpl in Hdd. apply andb_true_iff in Hdd as [Hd _]. apply bytes_eqb_spec in Hd. subst d.
+      simpl in Ej. destruct (rd ++ g); inversion Ej; subst; reflexivity. }
+  unfold clean_path, go_clean.
+  destruct (join (dd ++ g)) as [|c0 r0] eqn:Ej.
+  - (* the join of a non-empty list of non-empty names is not empty *)
+    exfalso. assert (Hs : split_slash (join (dd ++ g)) = dd ++ g) by (apply split_join_ns; assumption).
+    rewrite Ej in Hs. simpl in Hs.
+    destruct dd as [|d rd].
+    + simpl in Hs. destruct g as [|a g']; [congruence|]. inversion Hs; subst. simpl in Hg. discriminate.
+    + simpl in Hs. inversion Hs; subst. simpl in Hdd. discriminate.
+  - cbv zeta. rewrite (Hfirst c0 r0 eq_refl). rewrite <- Ej. rewrite (split_join_ns _ Hns Hne).
+    rewrite clean_comps_stack, clean_stack_app.
+    rewrite (clean_stack_dotdots dd (@nil name) Hdd eq_refl), app_nil_r.
+    rewrite (clean_stack_harmless false g (rev dd)) by (apply good_path_harmless; exact Hg).
+    rewrite (good_path_filter g Hg), rev_app_distr, !rev_involutive.
+    pose proof (Hfirst c0 r0 eq_refl) as Hc.
+    assert (Hm : forall L : list name, L <> [] -> join L = c0 :: r0 ->
+              match (match L with [] => [DOT] | _ :: _ => join L end) with
+              | [] => [] | c :: r => if N.eqb c SLASH then r else c :: r end = join L).
+    { intros L HL EL. destruct L as [|a l]; [congruence|]. rewrite EL, Hc. reflexivity. }
+    exact (Hm (dd ++ g) Hne Ej).
+Qed.
+
+Theorem cred_clean_path s : cred (clean_path s) = cred s.
+Proof.
+  unfold cred. destruct (clean_path_shape s) as [E|[E|(dd & g & Hdd & Hg & Hne & E)]]; rewrite E.
+  - reflexivity.
+  - reflexivity.
+  - rewrite clean_path_join_fixed by assumption. reflexivity.
+Qed.
